@@ -156,7 +156,10 @@ def run_cifrun(binary, cmds, timeout=120, env=None):
             outs.append(json.loads(l))
         except Exception:
             outs.append({"err": "unparsable", "raw": l[:200]})
-    return RunResult(outs, p.returncode, p.stderr.decode("utf-8", "replace")[-6000:])
+    err = p.stderr.decode("utf-8", "replace")
+    if len(err) > 9000:
+        err = err[:6000] + "\n...\n" + err[-2500:]
+    return RunResult(outs, p.returncode, err)
 
 
 def sanitizer_signature(stderr):
